@@ -308,7 +308,8 @@ def gallina_of_model(model, k, dt):
             continue
         code = i.type.tensor_type.elem_type
         nm = CODE_NAME.get(code)
-        v = f"x{idx}"
+        mm = re.fullmatch(r"in_(\d+)", i.name)
+        v = f"x{int(mm.group(1))}" if (mm and k.name == "program") else f"x{idx}"
         if k.name == "dynamic_slice" and idx == 0:
             dims = [d.dim_value for d in i.type.tensor_type.shape.dim]
             env[i.name] = (("data", dims), v)
@@ -723,7 +724,7 @@ def result_lit(v, kind):
     return zlit(int(v))
 
 
-COQ_HDR = common.CASES_HEADER + "From J2O Require Import Tensor Batch OnnxInt Kernels Lift.\n"
+COQ_HDR = common.CASES_HEADER + "From J2O Require Import Tensor Batch OnnxInt Kernels Lift LiftProg.\n"
 
 
 def eq_term(kind, a, b):
@@ -1134,20 +1135,18 @@ def _ort_worker(d):
     os.remove(os.path.join(d, "current"))
 
 
-def ort_search(ctx, todo_variants):
-    """run every exported model on its grid in a child onnxruntime process; fills v.ort / v.ort_err / v.status"""
+def ort_child(ctx, items, tag="ort"):
+    """items: [(model bytes, arrays, scalar_loop)] -> [("ran", outs) | ("err", msg) | ("crash", msg)], run in a child
+    onnxruntime process (restarted after a crash)"""
     import sys
-    d = os.path.join(ctx.work, "ort")
+    d = os.path.join(ctx.work, tag)
     os.makedirs(d, exist_ok=True)
     pending = []
-    for i, v in enumerate(todo_variants):
+    for i, (mb, arrays, loop) in enumerate(items):
         with open(os.path.join(d, f"{i}.onnx"), "wb") as fh:
-            fh.write(v.model.SerializeToString())
-        if v.k.name == "dynamic_slice":
-            np.savez(os.path.join(d, f"{i}.npz"), np.arange(v.k.extra["dim"], dtype=np.int32), v.inputs[0])
-        else:
-            np.savez(os.path.join(d, f"{i}.npz"), *v.inputs)
-        pending.append((i, v.k.name == "dynamic_slice"))
+            fh.write(mb)
+        np.savez(os.path.join(d, f"{i}.npz"), *arrays)
+        pending.append((i, bool(loop)))
     while pending:
         json.dump(pending, open(os.path.join(d, "todo.json"), "w"))
         rc, out = common.run([sys.executable, os.path.abspath(__file__), "--ort-worker", d], 1200)
@@ -1164,18 +1163,243 @@ def ort_search(ctx, todo_variants):
         with open(os.path.join(d, f"{c}.crash"), "w") as fh:
             fh.write(f"the onnxruntime process died (exit status {rc}) while running this model")
         pending = [(i, s_) for i, s_ in pending if i > c]
-    for i, v in enumerate(todo_variants):
+    res = []
+    for i in range(len(items)):
         po, pe, pc = (os.path.join(d, f"{i}.{e}") for e in ("out.npz", "err", "crash"))
         if os.path.exists(pc):
-            v.status, v.ort_err = "ort-crash", open(pc).read()
+            res.append(("crash", open(pc).read()))
         elif os.path.exists(po):
             z = np.load(po)
-            outs = [z[f"arr_{j}"] for j in range(len(z.files))]
-            v.ort = outs if v.k.name == "dynamic_slice" else outs[0]
+            res.append(("ran", [z[f"arr_{j}"] for j in range(len(z.files))]))
+        else:
+            res.append(("err", open(pe).read() if os.path.exists(pe) else "no result"))
+    return res
+
+
+def ort_search(ctx, todo_variants):
+    """run every exported model on its grid in a child onnxruntime process; fills v.ort / v.ort_err / v.status"""
+    items = []
+    for v in todo_variants:
+        if v.k.name == "dynamic_slice":
+            items.append((v.model.SerializeToString(), [np.arange(v.k.extra["dim"], dtype=np.int32), v.inputs[0]], True))
+        else:
+            items.append((v.model.SerializeToString(), list(v.inputs), False))
+    for v, (st, val) in zip(todo_variants, ort_child(ctx, items)):
+        if st == "crash":
+            v.status, v.ort_err = "ort-crash", val
+        elif st == "ran":
+            v.ort = val if v.k.name == "dynamic_slice" else val[0]
             v.status = "ran"
         else:
-            v.ort_err = open(pe).read() if os.path.exists(pe) else "no result"
-            v.status = "ort-no-kernel" if "NOT_IMPLEMENTED" in v.ort_err else "ort-error"
+            v.ort_err = val
+            v.status = "ort-no-kernel" if "NOT_IMPLEMENTED" in val else "ort-error"
+
+
+# ------------------------------------------------------------------------------------------------ (e) multi-equation programs
+# Random DAGs of 2-6 exact-kernel primitives over broadcasting int32 / int64 / bool operands of ranks 0-3.  For each program:
+#   the jaxpr the converter sees (real conversion_api._activate_plugin_worlds + jax.make_jaxpr) is mapped equation by equation to
+#   the names of LiftProg.exact_table; Coq composes the table's operator graphs (ksubst) into the graph the MODEL predicts and
+#   checks that the operator graph extracted (fail closed) from the REAL export is that term;  onnxruntime vs eager JAX on
+#   boundary fills of the operands, bit exact.  A program whose jaxpr leaves the table (broadcast_in_dim, jit, ...) is discarded
+#   at generation time (counted), never silently accepted.
+PRIM_ALIAS = {"jax.numpy.add": "add", "jax.numpy.maximum": "max", "jax.numpy.minimum": "min", "jax.numpy.bitwise_and": "and",
+              "jax.numpy.bitwise_or": "or", "jax.numpy.bitwise_xor": "xor", "jax.numpy.left_shift": "shift_left",
+              "jax.numpy.right_shift": "shift_right_arithmetic", "jax.numpy.equal": "eq", "jax.numpy.less": "lt",
+              "jax.numpy.less_equal": "le", "jax.numpy.greater": "gt", "jax.numpy.greater_equal": "ge", "jax.numpy.abs": "abs",
+              "jax.numpy.sign": "sign", "jax.numpy.invert": "not", "jax.numpy.bitwise_not": "not", "jax.numpy.where": "where"}
+TABLE_PRIMS = {"add", "sub", "mul", "neg", "sign", "abs", "div", "rem", "max", "min", "clamp", "select_n", "where", "and", "or", "xor",
+               "not", "shift_left", "shift_right_logical", "shift_right_arithmetic", "eq", "ne", "lt", "le", "gt", "ge", "integer_pow"}
+
+
+class Prog:
+    def __init__(self, pid, tree, shapes, dt, text):
+        self.id, self.tree, self.shapes, self.dt, self.text = pid, tree, shapes, dt, text
+        self.fn = _prog_fn(tree)
+        self.fills = None
+        self.jax = None
+        self.err = None
+        self.model = None
+        self.expected = None
+        self.deep = None
+        self.job = None
+        self.ort = None
+        self.status = "pending"
+
+
+def _prog_fn(tree):
+    def ev(t, env):
+        import jax.numpy as jnp
+        from jax import lax
+        op = t[0]
+        if op == "in":
+            return env[t[1]]
+        if op == "lit":
+            return t[1]
+        a = [ev(c, env) for c in t[2]]
+        kind, name = t[1]
+        if kind == "jnp":
+            return getattr(jnp, name)(*a)          # attribute looked up at call time: the converter's patched function
+        if kind == "lax":
+            return getattr(lax, name)(*a)
+        if kind == "pow":
+            return lax.integer_pow(a[0], name)
+        if kind == "clamp":
+            return lax.clamp(name[0], a[0], name[1])
+        raise ValueError(kind)
+    return lambda *xs: ev(tree, xs)
+
+
+def _bshape(s, t):
+    n = max(len(s), len(t))
+    s2, t2 = (1,) * (n - len(s)) + tuple(s), (1,) * (n - len(t)) + tuple(t)
+    return tuple(b if a == 1 else a for a, b in zip(s2, t2))
+
+
+def gen_programs(n, rng):
+    """random expression trees; shapes of sub-terms are tracked so that lax primitives only meet equal shapes or literals"""
+    progs, tries = [], 0
+    while len(progs) < n and tries < 40 * n:
+        tries += 1
+        dt = rng.choice(["int32", "int32", "int64"])
+        rank = rng.choice([0, 1, 2, 2, 3, 3])
+        full = tuple(rng.choice([1, 2, 3]) for _ in range(rank))
+        nin = rng.choice([2, 2, 3])
+        shapes = []
+        for _ in range(nin):
+            r = rng.randint(0, rank)
+            sh = tuple(d if rng.random() < 0.7 else 1 for d in full[rank - r:])
+            shapes.append(sh)
+        if rng.random() < 0.4:
+            shapes = [full] * nin
+        nodes = [0]
+
+        def intlit():
+            return ("lit", rng.choice([0, 1, 2, 3, 5, 7, -1, -3, -5]))
+
+        def gen_int(depth):
+            if depth <= 0 or (rng.random() < 0.25 and nodes[0] >= 2):
+                i = rng.randrange(nin)
+                return ("in", i), shapes[i]
+            nodes[0] += 1
+            c = rng.random()
+            if c < 0.30:                                   # any-shape binary (plugin-level jnp primitive)
+                a, sa = gen_int(depth - 1)
+                b, sb_ = gen_int(depth - 1)
+                return ("op", ("jnp", rng.choice(["add", "maximum", "minimum", "bitwise_and", "bitwise_or", "bitwise_xor"])), [a, b]), _bshape(sa, sb_)
+            if c < 0.50:                                   # lax binary with a literal
+                a, sa = gen_int(depth - 1)
+                name = rng.choice(["sub", "mul", "add", "max", "min"])
+                args = [a, intlit()] if rng.random() < 0.7 else [intlit(), a]
+                return ("op", ("lax", name), args), sa
+            if c < 0.58:                                   # division by a literal (never 0 or -1)
+                a, sa = gen_int(depth - 1)
+                return ("op", ("lax", rng.choice(["div", "rem"])), [a, ("lit", rng.choice([2, 3, 7, -3]))]), sa
+            if c < 0.66:
+                a, sa = gen_int(depth - 1)
+                return ("op", ("jnp", rng.choice(["left_shift", "right_shift"])), [a, ("lit", rng.choice([0, 1, 2, 5]))]), sa
+            if c < 0.76:
+                a, sa = gen_int(depth - 1)
+                return ("op", rng.choice([("jnp", "abs"), ("jnp", "sign"), ("lax", "neg"), ("jnp", "invert")]), [a]), sa
+            if c < 0.82:
+                a, sa = gen_int(depth - 1)
+                return ("op", ("pow", rng.choice([2, 3])), [a]), sa
+            if c < 0.88:
+                a, sa = gen_int(depth - 1)
+                lo, hi = sorted(rng.sample([-5, -2, 0, 3, 7, 100], 2))
+                return ("op", ("clamp", (lo, hi)), [a]), sa
+            p_, sp = gen_bool(depth - 1)
+            a, sa = gen_int(depth - 1)
+            b, sb_ = gen_int(depth - 1)
+            return ("op", ("jnp", "where"), [p_, a, b]), _bshape(sp, _bshape(sa, sb_))
+
+        def gen_bool(depth):
+            nodes[0] += 1
+            a, sa = gen_int(depth - 1)
+            if rng.random() < 0.5:
+                b, sb_ = gen_int(depth - 1)
+                return ("op", ("jnp", rng.choice(["less", "less_equal", "greater", "greater_equal", "equal"])), [a, b]), _bshape(sa, sb_)
+            return ("op", ("lax", rng.choice(["lt", "le", "gt", "ge", "eq", "ne"])), [a, intlit()]), sa
+        tree, _ = gen_int(rng.choice([2, 3, 3, 4]))
+        if not (2 <= nodes[0] <= 6):
+            continue
+        used = set(re.findall(r"\('in', (\d+)\)", repr(tree)))
+        if len(used) != nin:
+            continue
+        progs.append(Prog(f"p{len(progs)}", tree, shapes, dt, _prog_text(tree)))
+    return progs
+
+
+def _prog_text(t):
+    if t[0] == "in":
+        return "xyz"[t[1]]
+    if t[0] == "lit":
+        return str(t[1])
+    kind, name = t[1]
+    args = ", ".join(_prog_text(c) for c in t[2])
+    if kind == "pow":
+        return f"integer_pow({args}, {name})"
+    if kind == "clamp":
+        return f"clamp({name[0]}, {args}, {name[1]})"
+    return f"{kind}.{name}({args})"
+
+
+def prog_fills(pg, rng, nfill):
+    dt = np.dtype(pg.dt)
+    vals = int_values(pg.dt, small=True)
+    fills = []
+    for f in range(nfill):
+        cols = []
+        for sh in pg.shapes:
+            n = int(np.prod(sh)) if len(sh) else 1
+            if f == 0:
+                a = np.array([vals[(7 * j + 3) % len(vals)] for j in range(n)], dtype=dt)
+            else:
+                a = np.array([rng.choice(vals) for _ in range(n)], dtype=dt)
+            cols.append(a.reshape(sh))
+        fills.append(cols)
+    return fills
+
+
+def prog_expected(pg):
+    """(Coq term the model predicts for the program output, list of table names) from the jaxpr the converter sees;
+    raises Unrecognised when an equation is outside the exact fragment"""
+    import jax
+    from jax2onnx.converter import conversion_api as ca
+    specs = [jax.ShapeDtypeStruct(sh, np.dtype(pg.dt)) for sh in pg.shapes]
+    with ca._activate_plugin_worlds():
+        cj = jax.make_jaxpr(pg.fn)(*specs)
+    jp = cj.jaxpr
+    if jp.constvars:
+        raise Unrecognised("jaxpr with constvars")
+    term = {}
+    for i, v in enumerate(jp.invars):
+        term[v] = f"(KVar {i})"
+    names = []
+
+    def arg(a):
+        if hasattr(a, "val"):                       # Literal
+            val = np.asarray(a.val)
+            if val.shape != ():
+                raise Unrecognised("non-scalar literal")
+            return f"(KConst (VB {blit(bool(val))}))" if val.dtype == np.bool_ else f"(KConst (VZ ({int(val)})))"
+        return term[a]
+    for e in jp.eqns:
+        prim = str(e.primitive)
+        prim = PRIM_ALIAS.get(prim, prim)
+        if prim not in TABLE_PRIMS or len(e.outvars) != 1:
+            raise Unrecognised(f"primitive {e.primitive} is outside the exact fragment")
+        dts = [str(np.dtype(a.aval.dtype)) for a in e.invars]
+        if prim == "integer_pow":
+            key = f"integer_pow{int(e.params['y'])}:{dts[0]}"
+        elif prim in ("select_n", "where"):
+            key = f"{prim}:{dts[1]}"
+        else:
+            key = f"{prim}:{dts[0]}"
+        names.append(key)
+        term[e.outvars[0]] = f"(ksubst (kx_of \"{key}\") [{'; '.join(arg(a) for a in e.invars)}])"
+    if len(jp.outvars) != 1:
+        raise Unrecognised("several outputs")
+    return term[jp.outvars[0]], names
 
 
 # ------------------------------------------------------------------------------------------------ the check
@@ -1244,6 +1468,9 @@ def run(ctx):
             info = np.iinfo(v.dt)
             extra = np.array([rng.randint(info.min, info.max) for _ in range(40)], dtype=v.dt)
             v.inputs = (np.concatenate([v.inputs[0], extra]),)
+    progs = gen_programs(14 if tier == "quick" else 70, rng)
+    for pg in progs:
+        pg.fills = prog_fills(pg, rng, 4 if tier == "quick" else 10)
     prev64 = _set_x64(False)
     try:
         # ---- phase 1: eager JAX references (BEFORE any export of the same callable)
@@ -1257,6 +1484,14 @@ def run(ctx):
             todo = [v for v in variants if v.needs64() == flag]
             for v_ in todo:       # sequential: concurrent eager dispatch from threads crashed the interpreter once
                 ref(v_)
+            for pg in progs:
+                if (pg.dt == "int64") != flag:
+                    continue
+                try:
+                    import jax.numpy as jnp
+                    pg.jax = [np.asarray(pg.fn(*[jnp.asarray(a) for a in cols])) for cols in pg.fills]
+                except Exception as e:  # noqa: BLE001
+                    pg.err = f"eager JAX: {type(e).__name__}: {e}"[:300]
         T["jax_references"] = round(_time.time() - t_, 1)
         t_ = _time.time()
         # ---- phase 2: real exports of the single-primitive programs
@@ -1269,6 +1504,19 @@ def run(ctx):
                     v.model = export(v.k, v.dt, v.inputs)
                 except Exception as e:  # noqa: BLE001
                     v.export_err = f"{type(e).__name__}: {e}"[:400]
+            for pg in progs:
+                if (pg.dt == "int64") != flag or pg.err:
+                    continue
+                try:
+                    import jax as _jax
+                    from jax2onnx import to_onnx as _to_onnx
+                    pg.expected, pg.names = prog_expected(pg)
+                    pg.model = _to_onnx(pg.fn, [_jax.ShapeDtypeStruct(sh, np.dtype(pg.dt)) for sh in pg.shapes],
+                                        enable_double_precision=bool(flag))
+                except Unrecognised as e:
+                    pg.status, pg.err = "outside-fragment", str(e)
+                except Exception as e:  # noqa: BLE001
+                    pg.err = f"export: {type(e).__name__}: {e}"[:300]
     finally:
         _set_x64(prev64)
     for v in variants:
@@ -1376,6 +1624,29 @@ def run(ctx):
                 v.d3_job = jobs.add(_render_cases(f"o{len(jobs.jobs)}", v.term, cols, orr, kind))
         except Exception as e:  # noqa: BLE001
             ctx.oblige(f"tieD2:{v.id}", False, "tie", f"cannot render the grid: {type(e).__name__}: {e}"[:300])
+
+    # ---- (e) multi-equation programs: structure job and onnxruntime run
+    pk = K("program", [], None, "")
+    live_progs = [pg for pg in progs if pg.model is not None]
+    for pg in live_progs:
+        try:
+            term, _, _ = gallina_of_model(pg.model, pk, pg.dt)
+            pg.deep = deep_of_term(term)
+            if pg.deep is None:
+                raise Unrecognised("a non-elementwise operator in the exported graph")
+            exp_ = pg.expected.replace('")', '"%string)')
+            pg.job = jobs.add(f"Goal (({pg.deep}) : kx) = ({exp_}).\nProof. first [ timeout 30 (vm_compute; reflexivity); "
+                              f"idtac \"TIE_S_OK\" | idtac \"TIE_S_BAD\" ]. Abort.\n")
+        except Unrecognised as e:
+            pg.err = f"exported graph not recognised: {e}"
+    items = [(pg.model.SerializeToString(), cols, False) for pg in live_progs for cols in pg.fills]
+    pres = ort_child(ctx, items, tag="ortprog") if items else []
+    pi = 0
+    for pg in live_progs:
+        pg.ort = pres[pi:pi + len(pg.fills)]
+        pi += len(pg.fills)
+    T["programs"] = round(_time.time() - t_, 1)
+    t_ = _time.time()
 
     # ---- one parallel Coq evaluation of every tie
     results = jobs.run(ctx, nfiles=8)
@@ -1498,6 +1769,51 @@ def run(ctx):
     ctx.oblige(f"tieD3:lowered_k-equals-onnxruntime-on-the-real-export({n_d3} variants, {c_d3} points)", not bad_d3, "tie",
                "; ".join(bad_d3[:6]))
 
+    # ---- (e) programs: judge
+    n_prog_tied = n_prog_searched = prog_points = 0
+    outside = [f"{pg.text}: {pg.err}" for pg in progs if pg.status == "outside-fragment"]
+    for pg in progs:
+        if pg.status == "outside-fragment":
+            continue
+        desc = f"{pg.text} with {', '.join('xyz'[i] + ':' + pg.dt + str(list(sh)) for i, sh in enumerate(pg.shapes))}"
+        if pg.model is None or pg.job is None:
+            ctx.oblige(f"prog:{pg.id}", False, "tie", f"program {desc}: {pg.err}")
+            continue
+        if results[pg.job] is True:
+            n_prog_tied += 1
+        else:
+            ctx.oblige(f"tieS-program:{pg.id}", False, "tie",
+                       f"program {desc}: the exported graph {structure(pg.model)} is not the composition of the kernels' operator "
+                       f"graphs the model predicts for equations {pg.names}")
+        deviated = bool(node_op_dtypes(pg.model) & deviations)
+        bad = None
+        for f_, ((st, val), cols, ref_) in enumerate(zip(pg.ort, pg.fills, pg.jax)):
+            if st != "ran":
+                if st == "err" and "NOT_IMPLEMENTED" in val:
+                    break
+                bad = (f_, f"onnxruntime: {val[:200]}", None)
+                break
+            got = val[0]
+            prog_points += int(ref_.size)
+            if got.shape != ref_.shape or got.dtype != ref_.dtype or not np.array_equal(got, ref_):
+                bad = (f_, got.tolist() if got.size < 40 else f"shape {got.shape}", ref_.tolist() if ref_.size < 40 else f"shape {ref_.shape}")
+                break
+        else:
+            n_prog_searched += 1
+        if bad is not None and not deviated:
+            f_, got, exp = bad
+            ctx.violate(f"program:{pg.text}:{pg.dt}:{'/'.join(str(list(sh)) for sh in pg.shapes)}",
+                        f"program {desc}: operands {[c.tolist() for c in pg.fills[f_]]}: exported model in onnxruntime gives {got}, "
+                        f"eager JAX gives {exp}; nodes {structure(pg.model)}",
+                        {"kind": "program", "tree": pg.tree, "shapes": [list(sh) for sh in pg.shapes], "dtype": pg.dt,
+                         "operands": [c.tolist() for c in pg.fills[f_]], "onnxruntime": got, "jax": exp, "nodes": structure(pg.model)})
+    n_prog = len([pg for pg in progs if pg.status != "outside-fragment"])
+    ctx.oblige(f"tieS:program-graph-is-the-composition-of-kernel-graphs({n_prog_tied}/{n_prog} programs)", n_prog_tied == n_prog, "tie",
+               "" if n_prog_tied == n_prog else "see the tieS-program / prog obligations")
+    ctx.coverage.update({"c01k_programs": n_prog, "c01k_programs_structure_tied": n_prog_tied,
+                         "c01k_programs_searched_in_onnxruntime": n_prog_searched, "c01k_program_points": prog_points,
+                         "c01k_programs_generated_outside_fragment": outside[:10],
+                         "c01k_program_samples": [pg.text for pg in progs if pg.status != "outside-fragment"][:8]})
     kernels_seen = sorted({v.k.name for v in live})
     ctx.coverage.update({
         "c01k_kernels": len(kernels_seen), "c01k_kernel_list": kernels_seen,
